@@ -180,7 +180,7 @@ def surgery_tie(rep, rng):
         multi = rng.random() < 0.6
         attr = "#[" + G.render_meta(rng, (path, "list", args), nl=multi, comment=multi and rng.random() < 0.4) + "]"
         if G.cls_edit_file_trailing_comma(attr):
-            legal = False     # known-finding class: only model = code is demanded
+            rep.count("surgery_regression_input", "edit-file-trailing-comma")     # repaired (3f6203d): part of the legal corpus
         if G.cls_file_list_trailing_comma(attr):
             rep.count("surgery_regression_input", "file-list-trailing-comma")
         cases.append({"attr": attr, "legal": legal, "fam": fam, "active_expected": None})
@@ -350,7 +350,7 @@ def e2e(rep, rng):
         p = os.path.join(SCRATCH, "f%d.rs" % k)
         while True:
             c = G.gen_file_case(rng, p, safe=True)
-            if not G.known_classes(c["src"]) and not G.cls_edit_file_trailing_comma(c["attr"]):
+            if not G.known_classes(c["src"]):
                 break
         if rng.random() < 0.12:
             c["src_disk"] = c["src"].replace("\n", "\r\n")
@@ -451,7 +451,7 @@ def witness(name, pre="", inimpl="", args='file="%s", edit(file(script(def)))', 
     src = before + attr + sep + item + "\nfn after() {}\n"
     open(p, "w").write(src)
     return {"name": name, "path": p, "attr_args": a, "attr": attr, "item": doc + item, "src": src, "a0": len(before), "a1": len(before) + len(attr),
-            "i1": len(before) + len(attr) + len(sep) + len(item), "remove": "edit(file)" in a, "sep": sep}
+            "i1": len(before) + len(attr) + len(sep) + len(item), "remove": "edit(file)" in a or "edit(file,)" in a, "sep": sep}
 
 
 def witnesses():
@@ -472,7 +472,7 @@ def witnesses():
     return w
 
 
-REPAIRED = {"char-blank-or-comma", "char-escaped-quote", "attr-directly-followed", "file-list-trailing-comma"}
+REPAIRED = {"char-blank-or-comma", "char-escaped-quote", "attr-directly-followed", "file-list-trailing-comma", "edit-file-trailing-comma"}
 
 
 def replay_known(rep):
@@ -534,7 +534,7 @@ def run(rep):
         "ASCII source files and attributes (byte offsets = char offsets in the Coq text models); non-ASCII is outside the theorems' domain",
         "the item search (ItemCodeBlock::get_item_code) is modelled by its located offsets (attribute start/end, impl end), checked per case against the generator's ground truth; syn::parse_str equality inside it is not modelled",
         "generated code inside the inserted block is a parameter of the assembly model (its content belongs to C05-C15); un-commenting and compiling the block is not run",
-        "source files outside the known-finding input classes: " + ", ".join(n for n, _ in G.CLASSES) + ", edit-file-trailing-comma, doc-comment-on-impl (each replayed separately); the repaired classes char-blank-or-comma, char-escaped-quote, attr-directly-followed, file-list-trailing-comma are part of every corpus and replayed as regression inputs",
+        "source files outside the known-finding input classes: " + ", ".join(n for n, _ in G.CLASSES) + ", doc-comment-on-impl (each replayed separately); the repaired classes char-blank-or-comma, char-escaped-quote, attr-directly-followed, file-list-trailing-comma, edit-file-trailing-comma are part of every corpus and replayed as regression inputs",
         "family-level write-to-file is covered only at the surgery level (attribute texts), not end to end (family edit parsing is F7 / C15)",
         "line terminators: CRLF input is compared after CRLF->LF normalisation, a final terminator may be dropped",
     ]
